@@ -232,7 +232,7 @@ pub fn tier_runs(tier: &str, part: &str) -> u64 {
 }
 
 /// Total number of (abstract state, op kind, outcome) cells: 7^3 * 4 * 2 states.
-pub const ABSTRACT_STATES: u64 = 343 * 4 * 2;
+pub const ABSTRACT_STATES: u64 = 343 * 8 * 2;
 
 /// Parent: sequential batch (this binary) + threaded batch (verifsim_mt, if given).
 pub fn check(tier: &str, exe: &Path, mt_exe: Option<&Path>) -> i32 {
@@ -308,6 +308,8 @@ pub fn check(tier: &str, exe: &Path, mt_exe: Option<&Path>) -> i32 {
         "fault_fired.clone_overwrite",
         "fault_fired.reset",
         "op.opassign_equiv",
+        "op.bulk_set",
+        "op.reset_context_map_macro",
         "op.set_function",
         "op.call_function",
         "op.set_builtin_functions_disabled",
@@ -328,7 +330,7 @@ pub fn check(tier: &str, exe: &Path, mt_exe: Option<&Path>) -> i32 {
     let coverage = Json::obj()
         .with("evaluations", Json::u(s.get("steps") + mt_stats.get("steps")))
         .with("distinct_nontrivial", Json::u(res.distinct_nontrivial))
-        .with("rule", Json::s("histories of up to 40 operations by up to 4 actors (each owning one real HashMapContext and its abstract model) drawn from the run seed: set_value, eval_with_context_mut / eval_with_context of single-statement programs (all 9 assignment operators x 6 value types, failing right-hand sides, injected user-function errors), get_value, listings, clear_variables / clear_functions / clear, set_function, call_function, builtin switch, fork (clone-and-continue), overwrite by a clone, reset, and the op-assign equivalence check; after EVERY step the return value and the complete observable state of EVERY actor are compared with the model. evaluations = executed steps. distinct_nontrivial = distinct (abstract state before the step, operation kind, ok/err) cells reached, where abstract state = (type tag or unbound for a, b, f) x (f, g bound as functions) x builtin switch (2744 states); a cell is trivial (not counted) if it is a pure read on the pristine empty state."))
+        .with("rule", Json::s("histories of up to 40 operations by up to 4 actors (each owning one real HashMapContext and its abstract model) drawn from the run seed: set_value, eval_with_context_mut / eval_with_context of single-statement programs (all 9 assignment operators x 6 value types, failing right-hand sides, injected user-function errors), get_value, listings, clear_variables / clear_functions / clear, set_function, call_function, builtin switch, fork (clone-and-continue), overwrite by a clone, reset, and the op-assign equivalence check; after EVERY step the return value and the complete observable state of EVERY actor are compared with the model. evaluations = executed steps. distinct_nontrivial = distinct (abstract state before the step, operation kind, ok/err) cells reached, where abstract state = (type tag or unbound for a, b, f) x (f, g, len bound as functions) x builtin switch (5488 states); a cell is trivial (not counted) if it is a pure read on the pristine empty state."))
         .with("samples", Json::Arr(samples))
         .with("simulated_runs", Json::u(total_runs))
         .with("runs_per_hour", Json::u((total_runs as f64 / hours.max(1e-9)) as u64))
